@@ -7,9 +7,9 @@ Model: `MsPack/Cab/Set.lean` (`Heap.merge` = `cabd_merge`, split into its checki
 
 Proved here: every refusal leaves the heap exactly as it was (so both cabinets keep their own
 lists and can be closed independently), and each of the refusal conditions the property lists is
-indeed refused.  Order-independence of successful joins is checked by the correspondence
-(`cab.sets`: all join orders and directions, lists compared after every call) and is not yet a
-theorem.
+indeed refused.  Order-independence of successful joins is `C13_join_order_independent` in
+`Proofs/Props/C13Order.lean` (and is checked by the correspondence `cab.sets`: all join orders and
+directions, lists compared after every call).
 -/
 namespace MsPack.Cab
 open MsPack
